@@ -227,4 +227,536 @@ theorem view_suffix_applyAll (db : DB α) (us : List (Upd α)) (cc id : Nat) (hc
     simp only [DB.applyAll, List.foldl_cons] at h1 ⊢
     rw [h1, view_suffix_apply db u cc id hc hid]
 
+
+/-! ## the stamps invariant -/
+
+/-- births lie before deaths, all stamps before the clock, addresses are unique and below the
+allocation counter -/
+structure WF (db : DB α) : Prop where
+  birth_lt : ∀ e ∈ db.chain, e.birth < db.clock
+  death_ok : ∀ e ∈ db.chain, ∀ d, e.death = some d → e.birth < d ∧ d < db.clock
+  id_lt : ∀ e ∈ db.chain, e.id < db.next
+  nodup : (db.chain.map Entry.id).Nodup
+
+theorem WF.empty : WF (DB.empty : DB α) :=
+  ⟨by simp [DB.empty], by simp [DB.empty], by simp [DB.empty], by simp [DB.empty]⟩
+
+theorem WF.kill (db : DB α) (h : WF db) (p : Entry α → Bool) :
+    WF ⟨db.chain.map (fun e => if p e then e.kill db.clock else e), db.clock + 1, db.next⟩ := by
+  refine ⟨?_, ?_, ?_, ?_⟩
+  · intro e he
+    simp only [List.mem_map] at he
+    obtain ⟨x, hx, rfl⟩ := he
+    have := h.birth_lt x hx
+    by_cases hp : p x = true <;> simp [hp] <;> omega
+  · intro e he d hd
+    simp only [List.mem_map] at he
+    obtain ⟨x, hx, rfl⟩ := he
+    have hb := h.birth_lt x hx
+    by_cases hp : p x = true
+    · simp [hp] at hd ⊢
+      subst hd
+      exact ⟨hb, Nat.lt_succ_self _⟩
+    · simp [hp] at hd ⊢
+      have := h.death_ok x hx d hd
+      omega
+  · intro e he
+    simp only [List.mem_map] at he
+    obtain ⟨x, hx, rfl⟩ := he
+    have := h.id_lt x hx
+    by_cases hp : p x = true <;> simp [hp] <;> omega
+  · have : (db.chain.map (fun e => if p e then e.kill db.clock else e)).map Entry.id
+        = db.chain.map Entry.id := by
+      rw [List.map_map]
+      apply List.map_congr_left
+      intro e _
+      by_cases hp : p e = true <;> simp [hp]
+    simpa [this] using h.nodup
+
+/-- **the stamps invariant is preserved by every operation** -/
+theorem WF.apply {db : DB α} (h : WF db) (u : Upd α) : WF (db.apply u) := by
+  cases u with
+  | assertz c =>
+    refine ⟨?_, ?_, ?_, ?_⟩
+    · intro e he
+      simp only [DB.apply, List.mem_append, List.mem_singleton] at he ⊢
+      rcases he with he | rfl
+      · have := h.birth_lt e he; omega
+      · simp
+    · intro e he d hd
+      simp only [DB.apply, List.mem_append, List.mem_singleton] at he ⊢
+      rcases he with he | rfl
+      · have := h.death_ok e he d hd; omega
+      · simp at hd
+    · intro e he
+      simp only [DB.apply, List.mem_append, List.mem_singleton] at he ⊢
+      rcases he with he | rfl
+      · have := h.id_lt e he; omega
+      · simp
+    · simp only [DB.apply, List.map_append, List.map_cons, List.map_nil]
+      rw [List.nodup_append]
+      refine ⟨h.nodup, by simp, ?_⟩
+      intro a ha b hb
+      simp only [List.mem_map] at ha
+      obtain ⟨x, hx, rfl⟩ := ha
+      simp only [List.mem_singleton] at hb
+      have := h.id_lt x hx; omega
+  | asserta c =>
+    refine ⟨?_, ?_, ?_, ?_⟩
+    · intro e he
+      simp only [DB.apply, List.mem_cons] at he ⊢
+      rcases he with rfl | he
+      · simp
+      · have := h.birth_lt e he; omega
+    · intro e he d hd
+      simp only [DB.apply, List.mem_cons] at he ⊢
+      rcases he with rfl | he
+      · simp at hd
+      · have := h.death_ok e he d hd; omega
+    · intro e he
+      simp only [DB.apply, List.mem_cons] at he ⊢
+      rcases he with rfl | he
+      · simp
+      · have := h.id_lt e he; omega
+    · simp only [DB.apply, List.map_cons]
+      rw [List.nodup_cons]
+      refine ⟨?_, h.nodup⟩
+      intro ha
+      simp only [List.mem_map] at ha
+      obtain ⟨x, hx, hxe⟩ := ha
+      have := h.id_lt x hx; omega
+  | retractId id =>
+    by_cases ha : db.chain.any (targets id) = true
+    · simp only [DB.apply, ha, if_true]
+      exact WF.kill db h (targets id)
+    · simp only [DB.apply, ha]
+      exact h
+  | abolish => exact WF.kill db h Entry.live
+  | tick =>
+    refine ⟨?_, ?_, h.id_lt, h.nodup⟩
+    · intro e he; have := h.birth_lt e he; simp [DB.apply]; omega
+    · intro e he d hd; have := h.death_ok e he d hd; simp [DB.apply]; omega
+
+theorem WF.applyAll {db : DB α} (h : WF db) (us : List (Upd α)) : WF (db.applyAll us) := by
+  induction us generalizing db with
+  | nil => exact h
+  | cons u us ih => exact ih (h.apply u)
+
+
+def keyOf (e : Entry α) : Nat × α := (e.id, e.cl)
+
+/-- one retry of the repaired chain walk: the first clause visible to the call's own generation is
+delivered; the choice point survives exactly when a later one is visible, and then points at the
+instruction following the delivered clause -/
+theorem chainNext_fixed (v : Variant) (hv : v.cc = true) (reg : Nat) (f : Frame)
+    (l : List (Entry α)) (hne : view f.cc l ≠ []) :
+    ∃ e rest, (∃ pre, l = pre ++ e :: rest) ∧ view f.cc l = keyOf e :: view f.cc rest ∧
+      (chainNext v reg f l).out = some e ∧ (chainNext v reg f l).stuck = false ∧
+      (chainNext v reg f l).cc = f.cc ∧
+      ((view f.cc rest = [] ∧ (chainNext v reg f l).frame = none) ∨
+       (view f.cc rest ≠ [] ∧ ∃ nx tl, rest = nx :: tl ∧
+          (chainNext v reg f l).frame = some ⟨f.cc, nx.id⟩)) := by
+  cases hfl : findLiving f.cc l with
+  | none => exact absurd ((findLiving_none _ _).mp hfl) hne
+  | some p =>
+    obtain ⟨e, rest⟩ := p
+    obtain ⟨h1, h2⟩ := findLiving_some _ _ _ _ hfl
+    refine ⟨e, rest, h2, h1, ?_⟩
+    cases rest with
+    | nil => simp [chainNext, hv, hfl]
+    | cons nx tl =>
+      cases hfr : findLiving f.cc (nx :: tl) with
+      | none =>
+        have := (findLiving_none _ _).mp hfr
+        simp [chainNext, hv, hfl, hfr, this]
+      | some q =>
+        have : view f.cc (nx :: tl) ≠ [] := fun h => by
+          rw [(findLiving_none _ _).mpr h] at hfr; cases hfr
+        simp [chainNext, hv, hfl, hfr, this]
+
+theorem chainFirst_spec (clock : Nat) (l : List (Entry α)) :
+    (view clock l = [] ∧ (chainFirst clock l).out = none) ∨
+    ∃ e rest, (∃ pre, l = pre ++ e :: rest) ∧ view clock l = keyOf e :: view clock rest ∧
+      (chainFirst clock l).out = some e ∧
+      ((view clock rest = [] ∧ (chainFirst clock l).frame = none) ∨
+       (view clock rest ≠ [] ∧ ∃ nx tl, rest = nx :: tl ∧
+          (chainFirst clock l).frame = some ⟨clock, nx.id⟩)) := by
+  cases hfl : findLiving clock l with
+  | none => exact Or.inl ⟨(findLiving_none _ _).mp hfl, by simp [chainFirst, hfl]⟩
+  | some p =>
+    obtain ⟨e, rest⟩ := p
+    obtain ⟨h1, h2⟩ := findLiving_some _ _ _ _ hfl
+    refine Or.inr ⟨e, rest, h2, h1, ?_⟩
+    cases rest with
+    | nil => simp [chainFirst, hfl]
+    | cons nx tl =>
+      cases hfr : findLiving clock (nx :: tl) with
+      | none =>
+        have := (findLiving_none _ _).mp hfr
+        simp [chainFirst, hfl, hfr, this]
+      | some q =>
+        have : view clock (nx :: tl) ≠ [] := fun h => by
+          rw [(findLiving_none _ _).mpr h] at hfr; cases hfr
+        simp [chainFirst, hfl, hfr, this]
+
+theorem runChain_none (v : Variant) (db : DB α) (ils : List (Interlude α)) :
+    runChain v db none ils = ([], false) := by
+  cases ils <;> rfl
+
+theorem runChain_cons (v : Variant) (db : DB α) (f : Frame) (il : Interlude α)
+    (ils : List (Interlude α)) :
+    runChain v db (some f) (il :: ils) =
+      (let db' := db.applyAll il.upds
+       let s := chainNext v il.reg f (suffixFrom f.bp db'.chain)
+       if s.stuck then ([], true) else
+       match s.out with
+       | none => ([], false)
+       | some e => (e :: (runChain v db' s.frame ils).1, (runChain v db' s.frame ils).2)) := rfl
+
+/-- the repaired chain walk, retried after arbitrary interludes, delivers the clauses that were
+visible to the call's generation when the choice point was made -/
+theorem runChain_fixed (v : Variant) (hv : v.cc = true) :
+    ∀ (ils : List (Interlude α)) (db : DB α) (f : Frame), WF db → f.cc ≤ db.clock →
+      f.bp < db.next → view f.cc (suffixFrom f.bp db.chain) ≠ [] →
+      (runChain v db (some f) ils).1.map keyOf
+          = (view f.cc (suffixFrom f.bp db.chain)).take ils.length ∧
+      (runChain v db (some f) ils).2 = false := by
+  intro ils
+  induction ils with
+  | nil => intro db f _ _ _ _; simp [runChain]
+  | cons il ils ih =>
+    intro db f hwf hcc hbp hne
+    have hwf' : WF (db.applyAll il.upds) := hwf.applyAll _
+    have hcc' : f.cc ≤ (db.applyAll il.upds).clock := Nat.le_trans hcc (clock_le_applyAll _ _)
+    have hview := view_suffix_applyAll db il.upds f.cc f.bp hcc hbp
+    rw [← hview] at hne ⊢
+    obtain ⟨e, rest, ⟨pre, hpre⟩, hv1, hout, hst, _, hfr⟩ :=
+      chainNext_fixed v hv il.reg f _ hne
+    rw [runChain_cons]
+    simp only [hst, hout]
+    rcases hfr with ⟨hr, hf⟩ | ⟨hr, nx, tl, hrest, hf⟩
+    · simp [hf, runChain_none, hv1, hr]
+    · obtain ⟨pre0, hpre0⟩ := suffixFrom_suffix f.bp (db.applyAll il.upds).chain
+      have hchain : (db.applyAll il.upds).chain = (pre0 ++ pre ++ [e]) ++ nx :: tl := by
+        rw [hpre0, hpre, hrest]; simp
+      have hsuf : suffixFrom nx.id (db.applyAll il.upds).chain = nx :: tl := by
+        rw [hchain]; apply suffixFrom_of_nodup; rw [← hchain]; exact hwf'.nodup
+      have hnx : nx.id < (db.applyAll il.upds).next := by
+        apply hwf'.id_lt; rw [hchain]; simp
+      have := ih (db.applyAll il.upds) ⟨f.cc, nx.id⟩ hwf' hcc' hnx (by simpa [hsuf, ← hrest] using hr)
+      simp only [hsuf] at this
+      rw [hf]
+      simp [this.1, this.2, hv1, hrest]
+
+/-- **frozen view, chain walk.** A call through the chain of `DynamicElse` instructions, backtracked
+into after arbitrary interludes, delivers the clauses of its own snapshot, in order. -/
+theorem callChain_fixed (v : Variant) (hv : v.cc = true) (db : DB α) (hwf : WF db)
+    (ils : List (Interlude α)) :
+    (callChain v db ils).1.map keyOf = db.snapshot.take (ils.length + 1) ∧
+    (callChain v db ils).2 = false := by
+  unfold callChain DB.snapshot
+  rcases chainFirst_spec db.clock db.chain with ⟨h0, hout⟩ | ⟨e, rest, ⟨pre, hpre⟩, hv1, hout, hfr⟩
+  · simp [hout, h0]
+  · simp only [hout]
+    rcases hfr with ⟨hr, hf⟩ | ⟨hr, nx, tl, hrest, hf⟩
+    · simp [hf, runChain_none, hv1, hr]
+    · have hchain : db.chain = (pre ++ [e]) ++ nx :: tl := by rw [hpre, hrest]; simp
+      have hsuf : suffixFrom nx.id db.chain = nx :: tl := by
+        rw [hchain]; apply suffixFrom_of_nodup; rw [← hchain]; exact hwf.nodup
+      have hnx : nx.id < db.next := by apply hwf.id_lt; rw [hchain]; simp
+      have := runChain_fixed v hv ils db ⟨db.clock, nx.id⟩ hwf (Nat.le_refl _) hnx
+        (by simpa [hsuf, ← hrest] using hr)
+      simp only [hsuf] at this
+      rw [hf]
+      simp [this.1, this.2, hv1, hrest]
+
+/-! ## walking a DynamicIndexedChoice line -/
+
+/-- the line without the clauses `asserta` pushed onto its front after generation `cc` -/
+def core (cc : Nat) (l : List (Entry α)) : List (Entry α) :=
+  l.dropWhile (fun e => decide (cc ≤ e.birth))
+
+theorem drop_lead (cc n : Nat) (l : List (Entry α)) :
+    l.drop (n + lead cc l) = (core cc l).drop n := by
+  induction l with
+  | nil => simp [lead, core]
+  | cons e es ih =>
+    by_cases h : cc ≤ e.birth
+    · simp only [lead, h, if_true, core, List.dropWhile_cons, decide_true]
+      rw [← Nat.add_assoc, List.drop_succ_cons]
+      exact ih
+    · simp [lead, h, core, List.dropWhile_cons]
+
+theorem view_core (cc : Nat) (l : List (Entry α)) : view cc (core cc l) = view cc l := by
+  induction l with
+  | nil => rfl
+  | cons e es ih =>
+    by_cases h : cc ≤ e.birth
+    · simp only [core, List.dropWhile_cons, h, decide_true, if_true, view_cons,
+        vis_of_birth_ge e cc h]
+      simpa [core] using ih
+    · simp [core, List.dropWhile_cons, h]
+
+theorem core_all_new (cc : Nat) (l : List (Entry α)) (h : ∀ e ∈ l, cc ≤ e.birth) :
+    core cc l = [] := by
+  induction l with
+  | nil => rfl
+  | cons e es ih =>
+    have he := h e (List.mem_cons_self ..)
+    simp only [core, List.dropWhile_cons, he, decide_true, if_true]
+    exact ih (fun x hx => h x (List.mem_cons_of_mem _ hx))
+
+theorem core_front (cc : Nat) (front l : List (Entry α)) (h : ∀ e ∈ front, cc ≤ e.birth) :
+    core cc (front ++ l) = core cc l := by
+  induction front with
+  | nil => rfl
+  | cons e f ih =>
+    have he := h e (List.mem_cons_self ..)
+    simp only [core, List.cons_append, List.dropWhile_cons, he, decide_true, if_true]
+    exact ih (fun x hx => h x (List.mem_cons_of_mem _ hx))
+
+theorem view_sublist_new (cc : Nat) (back : List (Entry α)) (h : ∀ e ∈ back, cc ≤ e.birth)
+    (n : Nat) : view cc (back.drop n) = [] :=
+  view_all_new cc _ (fun e he => h e (List.mem_of_mem_drop he))
+
+theorem core_back_nil (cc : Nat) (l back : List (Entry α)) (h : ∀ e ∈ back, cc ≤ e.birth)
+    (hl : core cc l = []) : core cc (l ++ back) = [] := by
+  induction l with
+  | nil => simpa using core_all_new cc back h
+  | cons e es ih =>
+    by_cases he : cc ≤ e.birth
+    · simp only [core, List.dropWhile_cons, he, decide_true, if_true, List.cons_append] at hl ⊢
+      exact ih hl
+    · simp [core, he] at hl
+
+theorem core_back_ne (cc : Nat) (l back : List (Entry α)) (hl : core cc l ≠ []) :
+    core cc (l ++ back) = core cc l ++ back := by
+  induction l with
+  | nil => simp [core] at hl
+  | cons e es ih =>
+    by_cases he : cc ≤ e.birth
+    · simp only [core, List.dropWhile_cons, he, decide_true, if_true, List.cons_append] at hl ⊢
+      exact ih hl
+    · simp [core, he]
+
+theorem view_drop_append_new (cc : Nat) (a back : List (Entry α)) (h : ∀ e ∈ back, cc ≤ e.birth)
+    (n : Nat) : view cc ((a ++ back).drop n) = view cc (a.drop n) := by
+  induction a generalizing n with
+  | nil => simpa using view_sublist_new cc back h n
+  | cons x a ih =>
+    cases n with
+    | zero =>
+      have := view_append cc (x :: a) back
+      simp only [List.cons_append] at this
+      simp [this, view_all_new cc back h]
+    | succ n => simpa using ih n
+
+theorem core_map (cc : Nat) (g : Entry α → Entry α) (hb : ∀ e, (g e).birth = e.birth)
+    (l : List (Entry α)) : core cc (l.map g) = (core cc l).map g := by
+  induction l with
+  | nil => rfl
+  | cons e es ih =>
+    by_cases he : cc ≤ e.birth
+    · simpa [core, List.dropWhile_cons, he, hb] using ih
+    · simp [core, List.dropWhile_cons, he, hb]
+
+/-- one update, seen from a choice point of generation `cc` walking the line of the clauses selected
+by `sel`: the clauses still to be delivered behind relative position `n` are the same -/
+theorem view_line_apply (db : DB α) (u : Upd α) (sel : α → Bool) (cc n : Nat) (hc : cc ≤ db.clock) :
+    view cc ((core cc ((db.apply u).chain.filter (fun e => sel e.cl))).drop n)
+      = view cc ((core cc (db.chain.filter (fun e => sel e.cl))).drop n) := by
+  obtain ⟨g, front, back, hq, hch, hf, hb⟩ := apply_shape db u
+  have hfm : (db.chain.map g).filter (fun e => sel e.cl)
+      = (db.chain.filter (fun e => sel e.cl)).map g := by
+    rw [List.filter_map]
+    congr 1
+    apply List.filter_congr
+    intro e _
+    simp [Function.comp, hq.cl]
+  rw [hch, List.filter_append, List.filter_append, hfm, List.append_assoc,
+    core_front _ _ _ (fun e he => by have := (hf e (List.mem_filter.mp he).1).1; omega)]
+  have hbn : ∀ e ∈ back.filter (fun e => sel e.cl), cc ≤ e.birth :=
+    fun e he => by have := (hb e (List.mem_filter.mp he).1).1; omega
+  by_cases h : core cc (db.chain.filter (fun e => sel e.cl)) = []
+  · have h' : core cc ((db.chain.filter (fun e => sel e.cl)).map g) = [] := by
+      rw [core_map _ _ hq.birth, h]; rfl
+    rw [core_back_nil _ _ _ hbn h', h]
+  · have h' : core cc ((db.chain.filter (fun e => sel e.cl)).map g) ≠ [] := by
+      rw [core_map _ _ hq.birth]; simpa using h
+    rw [core_back_ne _ _ _ h', view_drop_append_new _ _ _ hbn, core_map _ _ hq.birth,
+      ← List.map_drop]
+    exact view_map cc g _ hq.id hq.cl (fun e _ => hq.vis e cc hc)
+
+theorem view_line_applyAll (db : DB α) (us : List (Upd α)) (sel : α → Bool) (cc n : Nat)
+    (hc : cc ≤ db.clock) :
+    view cc ((core cc ((db.applyAll us).chain.filter (fun e => sel e.cl))).drop n)
+      = view cc ((core cc (db.chain.filter (fun e => sel e.cl))).drop n) := by
+  induction us generalizing db with
+  | nil => rfl
+  | cons u us ih =>
+    have h1 := ih (db.apply u) (Nat.le_trans hc (clock_le_apply db u))
+    simp only [DB.applyAll, List.foldl_cons] at h1 ⊢
+    rw [h1, view_line_apply db u sel cc n hc]
+
+theorem findLivingIdx_none (cc : Nat) (l : List (Entry α)) (ii : Nat) :
+    findLivingIdx cc l ii = none ↔ view cc l = [] := by
+  induction l generalizing ii with
+  | nil => simp [findLivingIdx]
+  | cons e l ih =>
+    by_cases h : e.vis cc = true
+    · simp [findLivingIdx, view_cons, h]
+    · simp [findLivingIdx, view_cons, h, ih]
+
+theorem findLivingIdx_some (cc : Nat) (l : List (Entry α)) (ii : Nat) (e : Entry α) (jj : Nat)
+    (h : findLivingIdx cc l ii = some (e, jj)) :
+    ii ≤ jj ∧ view cc l = keyOf e :: view cc (l.drop (jj - ii + 1)) := by
+  induction l generalizing ii with
+  | nil => simp [findLivingIdx] at h
+  | cons x l ih =>
+    by_cases hx : x.vis cc = true
+    · simp [findLivingIdx, hx] at h
+      obtain ⟨rfl, rfl⟩ := h
+      simp [view_cons, hx, keyOf]
+    · simp [findLivingIdx, hx] at h
+      obtain ⟨h1, h2⟩ := ih (ii + 1) h
+      refine ⟨by omega, ?_⟩
+      have : jj - ii + 1 = (jj - (ii + 1) + 1) + 1 := by omega
+      rw [this, List.drop_succ_cons]
+      simp [view_cons, hx, h2]
+
+theorem findLivingAt_none (cc : Nat) (line : List (Entry α)) (ii : Nat) :
+    findLivingAt cc line ii = none ↔ view cc (line.drop ii) = [] :=
+  findLivingIdx_none cc _ ii
+
+theorem findLivingAt_some (cc : Nat) (line : List (Entry α)) (ii : Nat) (e : Entry α) (jj : Nat)
+    (h : findLivingAt cc line ii = some (e, jj)) :
+    ii ≤ jj ∧ view cc (line.drop ii) = keyOf e :: view cc (line.drop (jj + 1)) := by
+  obtain ⟨h1, h2⟩ := findLivingIdx_some cc _ ii e jj h
+  refine ⟨h1, ?_⟩
+  have e1 : ii + (jj - ii + 1) = jj + 1 := by omega
+  rw [h2, List.drop_drop]
+  simp [e1]
+
+/-- one retry of the repaired line walk -/
+theorem lineNext_fixed (v : Variant) (hv : v.cc = true) (hi : v.idx = true) (reg : Nat) (f : BFrame)
+    (line : List (Entry α)) (hne : view f.cc ((core f.cc line).drop f.biip) ≠ []) :
+    ∃ e m, view f.cc ((core f.cc line).drop f.biip) = keyOf e :: view f.cc ((core f.cc line).drop m) ∧
+      (lineNext v reg f line).out = some e ∧ (lineNext v reg f line).stuck = false ∧
+      ((view f.cc ((core f.cc line).drop m) = [] ∧ (lineNext v reg f line).frame = none) ∨
+       (view f.cc ((core f.cc line).drop m) ≠ [] ∧
+          (lineNext v reg f line).frame = some ⟨f.cc, m⟩)) := by
+  rw [← drop_lead] at hne
+  cases hfl : findLivingAt f.cc line (f.biip + lead f.cc line) with
+  | none => exact absurd ((findLivingAt_none _ _ _).mp hfl) hne
+  | some p =>
+    obtain ⟨e, jj⟩ := p
+    obtain ⟨h1, h2⟩ := findLivingAt_some _ _ _ _ _ hfl
+    have hm : jj + 1 = (jj + 1 - lead f.cc line) + lead f.cc line := by omega
+    refine ⟨e, jj + 1 - lead f.cc line, ?_, ?_⟩
+    · rw [← drop_lead, ← drop_lead, ← hm]; exact h2
+    · rw [← drop_lead, ← hm]
+      cases hfr : findLivingAt f.cc line (jj + 1) with
+      | none =>
+        have := (findLivingAt_none _ _ _).mp hfr
+        simp [lineNext, hv, hi, hfl, hfr, this]
+      | some q =>
+        have : view f.cc (line.drop (jj + 1)) ≠ [] := fun h => by
+          rw [(findLivingAt_none _ _ _).mpr h] at hfr; cases hfr
+        simp [lineNext, hv, hi, hfl, hfr, this]
+
+theorem lineFirst_spec (v : Variant) (hi : v.idx = true) (clock : Nat) (line : List (Entry α)) :
+    (view clock line = [] ∧ (lineFirst v clock line).out = none) ∨
+    ∃ e m, view clock line = keyOf e :: view clock ((core clock line).drop m) ∧
+      (lineFirst v clock line).out = some e ∧
+      ((view clock ((core clock line).drop m) = [] ∧ (lineFirst v clock line).frame = none) ∨
+       (view clock ((core clock line).drop m) ≠ [] ∧
+          (lineFirst v clock line).frame = some ⟨clock, m⟩)) := by
+  have hv0 : view clock (line.drop (lead clock line)) = view clock line := by
+    have := drop_lead clock 0 line
+    simp only [Nat.zero_add, List.drop_zero] at this
+    rw [this, view_core]
+  cases hfl : findLivingAt clock line (lead clock line) with
+  | none =>
+    refine Or.inl ⟨?_, by simp [lineFirst, hi, hfl]⟩
+    rw [← hv0]; exact (findLivingAt_none _ _ _).mp hfl
+  | some p =>
+    obtain ⟨e, jj⟩ := p
+    obtain ⟨h1, h2⟩ := findLivingAt_some _ _ _ _ _ hfl
+    have hm : jj + 1 = (jj + 1 - lead clock line) + lead clock line := by omega
+    refine Or.inr ⟨e, jj + 1 - lead clock line, ?_, ?_⟩
+    · rw [← drop_lead, ← hm, ← hv0]; exact h2
+    · rw [← drop_lead, ← hm]
+      cases hfr : findLivingAt clock line (jj + 1) with
+      | none =>
+        have := (findLivingAt_none _ _ _).mp hfr
+        simp [lineFirst, hi, hfl, hfr, this]
+      | some q =>
+        have : view clock (line.drop (jj + 1)) ≠ [] := fun h => by
+          rw [(findLivingAt_none _ _ _).mpr h] at hfr; cases hfr
+        simp [lineFirst, hi, hfl, hfr, this]
+
+theorem runLine_none (v : Variant) (sel : α → Bool) (db : DB α) (ils : List (Interlude α)) :
+    runLine v sel db none ils = ([], false) := by
+  cases ils <;> rfl
+
+theorem runLine_cons (v : Variant) (sel : α → Bool) (db : DB α) (f : BFrame) (il : Interlude α)
+    (ils : List (Interlude α)) :
+    runLine v sel db (some f) (il :: ils) =
+      (let db' := db.applyAll il.upds
+       let s := lineNext v il.reg f (db'.chain.filter (fun e => sel e.cl))
+       if s.stuck then ([], true) else
+       match s.out with
+       | none => ([], false)
+       | some e => (e :: (runLine v sel db' s.frame ils).1, (runLine v sel db' s.frame ils).2)) := rfl
+
+theorem runLine_fixed (v : Variant) (hv : v.cc = true) (hi : v.idx = true) (sel : α → Bool) :
+    ∀ (ils : List (Interlude α)) (db : DB α) (f : BFrame), f.cc ≤ db.clock →
+      view f.cc ((core f.cc (db.chain.filter (fun e => sel e.cl))).drop f.biip) ≠ [] →
+      (runLine v sel db (some f) ils).1.map keyOf
+          = (view f.cc ((core f.cc (db.chain.filter (fun e => sel e.cl))).drop f.biip)).take
+              ils.length ∧
+      (runLine v sel db (some f) ils).2 = false := by
+  intro ils
+  induction ils with
+  | nil => intro db f _ _; simp [runLine]
+  | cons il ils ih =>
+    intro db f hcc hne
+    have hcc' : f.cc ≤ (db.applyAll il.upds).clock := Nat.le_trans hcc (clock_le_applyAll _ _)
+    have hview := view_line_applyAll db il.upds sel f.cc f.biip hcc
+    rw [← hview] at hne ⊢
+    obtain ⟨e, m, hv1, hout, hst, hfr⟩ := lineNext_fixed v hv hi il.reg f _ hne
+    rw [runLine_cons]
+    simp only [hst, hout]
+    rcases hfr with ⟨hr, hf⟩ | ⟨hr, hf⟩
+    · simp [hf, runLine_none, hv1, hr]
+    · have := ih (db.applyAll il.upds) ⟨f.cc, m⟩ hcc' hr
+      rw [hf]
+      simp [this.1, this.2, hv1]
+
+theorem view_filter (cc : Nat) (sel : α → Bool) (l : List (Entry α)) :
+    view cc (l.filter (fun e => sel e.cl)) = (view cc l).filter (fun p => sel p.2) := by
+  induction l with
+  | nil => rfl
+  | cons e l ih =>
+    by_cases hs : sel e.cl = true <;> by_cases hv : e.vis cc = true <;>
+      simp [List.filter_cons, view_cons, hs, hv, ih]
+
+/-- **frozen view, index line walk.** -/
+theorem callLine_fixed (v : Variant) (hv : v.cc = true) (hi : v.idx = true) (sel : α → Bool)
+    (db : DB α) (ils : List (Interlude α)) :
+    (callLine v sel db ils).1.map keyOf
+        = (db.snapshot.filter (fun p => sel p.2)).take (ils.length + 1) ∧
+    (callLine v sel db ils).2 = false := by
+  unfold callLine DB.snapshot
+  rw [← view_filter]
+  rcases lineFirst_spec v hi db.clock (db.chain.filter (fun e => sel e.cl)) with
+    ⟨h0, hout⟩ | ⟨e, m, hv1, hout, hfr⟩
+  · simp [hout, h0]
+  · simp only [hout]
+    rcases hfr with ⟨hr, hf⟩ | ⟨hr, hf⟩
+    · simp [hf, runLine_none, hv1, hr]
+    · have := runLine_fixed v hv hi sel ils db ⟨db.clock, m⟩ (Nat.le_refl _) hr
+      rw [hf]
+      simp [this.1, this.2, hv1]
+
 end Scryer.Luv
